@@ -696,19 +696,43 @@ func (d *deepView) fieldOrigin(v ssa.Value, fr *frame, depth int) string {
 		}
 	}
 	r := d.resolveConv(ir.StripIface(v), fr)
+	// outerField: name the field of the root object a nested path starts with
+	// (p.certTable.raw -> certTable), not the innermost one
+	outer := func(fa ssa.Value) string {
+		id := ir.FieldID(fa)
+		if !d.outerField {
+			return id
+		}
+		for k := 0; k < 6; k++ {
+			x, ok := fa.(*ssa.FieldAddr)
+			if !ok {
+				break
+			}
+			base := x.X
+			if ld, isLd := base.(*ssa.UnOp); isLd && ld.Op == token.MUL {
+				base = ld.X
+			}
+			if _, isFA := base.(*ssa.FieldAddr); !isFA {
+				break
+			}
+			fa = base
+			id = ir.FieldID(fa)
+		}
+		return id
+	}
 	switch x := r.v.(type) {
 	case *ssa.MakeInterface:
 		return d.fieldOrigin(x.X, r.fr, depth+1)
 	case *ssa.UnOp:
 		if x.Op == token.MUL {
-			if id := ir.FieldID(x.X); id != "" {
+			if id := outer(x.X); id != "" {
 				return id
 			}
 		}
 	case *ssa.Field:
 		return ir.FieldID(x)
 	case *ssa.FieldAddr:
-		return ir.FieldID(x)
+		return outer(x)
 	case *ssa.Slice:
 		return d.fieldOrigin(x.X, r.fr, depth+1)
 	case *ssa.Call:
